@@ -335,7 +335,9 @@ Definition sdirective (tb : table) (line : list token) : sres table :=
         | n :: _ => if is_kind KNumber n then SOk tb else SUnspec   (* 6.10.4p5: any other form is undefined *)
         | [] => SUnspec
         end
-      else if str_eqb (lit d) s_pragma then (if no_macro_names tb r then SOk tb else SUnspec)
+      (* 6.10.6: whatever an implementation does with the tokens of a pragma (macro replacement is permitted, not
+         required), the directive ends at its new-line: nothing of the following lines belongs to it *)
+      else if str_eqb (lit d) s_pragma then SOk tb
       else SErr
   end.
 
